@@ -257,3 +257,17 @@ Fixpoint sched_ok (s : st P D) (evs : list event) : bool :=
 
 Definition finished (s : st P D) : bool := match pc P D s with PcDone _ => true | _ => false end.
 End Class.
+
+(* ------------------------------------------------------------------ a device instance of the class: a recorded ledger
+   of device results, read through the type of the method that is called (a recorded run calls each entry with the
+   method that produced it, so on recorded schedules this is the ledger itself; off the recorded path the
+   devices still "do not fail") *)
+Definition ty_dev (ledger : list devres) (pos : nat) (d : nat) (m : devmeth) : nat * devres :=
+  (S pos,
+   let r := match nth_error ledger pos with Some r => r | None => DUnit end in
+   match m with
+   | MSet | MTrigger => match r with DStatus _ _ => r | _ => DStatus 0 true end
+   | MRead => match r with DVal _ => r | _ => DVal 0%Z end
+   | MPause | MResume => match r with DRaise _ => DUnit | _ => r end
+   | _ => r
+   end).
